@@ -143,7 +143,9 @@ def tsan(prop, tier, seed, ctx, log, build, run_workers):
 
 
 FUZZ_TARGET = {"C01": "parse_diff", "C02": "parse_diff", "C18": "parse_diff", "C03": "roundtrip", "C04": "roundtrip",
-               "C05": "roundtrip", "C06": "roundtrip", "C07": "rename", "C13": "text", "C14": "text"}
+               "C05": "roundtrip", "C06": "roundtrip", "C07": "rename", "C13": "text", "C14": "text",
+               # decision tapes (the fuzzer's bytes are the generator's random decisions)
+               "C08": "history", "C09": "history", "C10": "history", "C11": "walk", "C15": "script"}
 
 
 def fuzz(prop, tier, seed, ctx, log, build):
